@@ -21,7 +21,7 @@ from ..timeline import EPS, run_async, run_sync
 UNIT_TIMEOUT = 900  # backstop against a hung unit only; thread-slice subtrees can take minutes on a loaded machine
 LEVEL = "exploration"
 RULE = (
-    "TIME machine variants (one delay, two delays, targetless delay + second delay, named computed delay, compound timed state re-entered through a descendant target, guarded "
+    "TIME machine variants (one delay, two delays, two same-named timed states with the same delay in sibling regions, a guarded + fallback candidate list under one delay key, targetless delay + second delay, named computed delay, compound timed state re-entered through a descendant target, guarded "
     "delay true/false/raise) x environment scripts = all sequences up to the length bound over {LEAVE, BACK, SELF "
     "(re-enter), NOP, STOP, SLOW (an action that keeps the interpreter busy across a deadline), SLOWSELF (the busy action first "
     "queues a re-entering event, so the expiry lands behind it), CHG (named delay)} with non-decreasing times from a grid straddling the "
@@ -42,7 +42,7 @@ ENGINES = ("sync", "async")
 D1, D2 = 0.25, 0.375
 GRID = (0.125, 0.25, 0.3125, 0.375, 0.5)
 HORIZON = 1.5
-VARIANTS = ("one", "two", "stay", "named", "g_true", "g_false", "g_raise", "compound", "compound-stay")
+VARIANTS = ("one", "two", "stay", "named", "g_true", "g_false", "g_raise", "compound", "compound-stay", "twin", "cand_true", "cand_false")
 
 
 async def slow_action(interp, ctx, event, action_def):
@@ -55,7 +55,55 @@ async def slowself_action(interp, ctx, event, action_def):
     await asyncio.sleep(0.1875)
 
 
+def twin_cfg() -> Dict[str, Any]:
+    """Two timed states with the SAME local key ('wait') and the same delay, active together in sibling regions: their
+    expiry notifications are queued side by side, and leaving one must not disturb the other's."""
+    def region(mark, extra_on):
+        return {"initial": "wait", "states": {
+            "wait": {"entry": [f"en:{mark}"], "exit": [f"ex:{mark}"], "after": {"250": {"target": "out", "actions": [f"tr:{mark}"]}}, "on": extra_on},
+            "out": {}, "gone": {}}}
+    return {
+        "id": "m", "type": "parallel", "context": {"d": 250},
+        "states": {"L": region("a1", {"LL": "gone"}), "R": region("a2", {})},
+        "on": {"NOP": {"actions": ["tr:nop"]}, "SLOW": {"actions": ["slow", "tr:slow"]}},
+    }
+
+
+def judge_twin(engine: str, script, log: List[tuple], d) -> List[Tuple[str, str]]:
+    bad: List[Tuple[str, str]] = []
+    fired: Dict[str, float] = {}
+    left_at: Dict[str, float] = {}
+    stopped_at: Optional[float] = None
+    for e in log:
+        if e[0] == "A" and e[1] in ("tr:a1", "tr:a2"):
+            name, t = e[1], e[5]
+            if name in fired:
+                bad.append(("fired-twice-in-one-activation", f"{name} at {fired[name]} and {t}"))
+            fired[name] = t
+            if t + EPS < D1:
+                bad.append(("fired-early", f"{name} at t={t}, delay {D1}"))
+            if stopped_at is not None and D1 > stopped_at + EPS:
+                bad.append(("fired-though-stopped-before-deadline", f"{name} at {t}, stop() at {stopped_at}"))
+        elif e[0] == "A" and e[1] in ("ex:a1", "ex:a2"):
+            left_at[e[1][3:]] = e[5]
+        elif e[0] == "OP" and e[1] == "STOP":
+            stopped_at = e[2]
+    for name, t in fired.items():
+        la = left_at.get(name[3:])
+        if la is not None and t > la + EPS:
+            bad.append(("fired-after-state-left", f"{name} at t={t}, its state left at {la}"))
+    ops = [op for _, op in script]
+    if "STOP" not in ops:
+        # the right region's state is left by nothing but its own timer; the left one unless LL is sent
+        for name in ("tr:a2",) + (() if "LL" in ops else ("tr:a1",)):
+            if name not in fired:
+                bad.append(("did-not-fire-when-due", f"{name}: its state was active from 0 to the horizon {HORIZON}, deadline {D1}; fired: {fired}"))
+    return bad
+
+
 def make_cfg(variant: str) -> Dict[str, Any]:
+    if variant == "twin":
+        return twin_cfg()
     after: Dict[str, Any] = {}
     if variant in ("one", "two", "g_true", "g_false", "g_raise", "compound"):
         t1: Dict[str, Any] = {"target": "B", "actions": ["tr:a1"]}
@@ -69,6 +117,10 @@ def make_cfg(variant: str) -> Dict[str, Any]:
         after["375"] = {"target": "C", "actions": ["tr:a2"]}
     elif variant == "named":
         after["DLY"] = {"target": "B", "actions": ["tr:a1"]}
+    elif variant.startswith("cand_"):
+        # a candidate LIST under one delay key (guarded + fallback, both targetless): one delivery, one winner, once
+        after["250"] = [{"guard": "g1", "actions": ["tr:a1"]}, {"actions": ["tr:a1"]}]
+        after["375"] = {"target": "C", "actions": ["tr:a2"]}
     back = {"on": {"BACK": "A"}}
     cfg = {
         "id": "m", "initial": "A", "context": {"d": 250},
@@ -103,6 +155,8 @@ def delays_for(variant: str):
 
 def scripts(maxlen: int, engine: str, variant: str) -> List[List[tuple]]:
     ops = ["LEAVE", "BACK", "SELF", "NOP", "STOP", "SLOW", "SLOWSELF"]
+    if variant == "twin":
+        ops = ["NOP", "SLOW", "LL", "STOP"]
     if variant == "named":
         ops.append("CHG")
     out: List[List[tuple]] = [[]]
@@ -203,7 +257,7 @@ def judge(variant: str, engine: str, script, log: List[tuple], d) -> List[Tuple[
 
 
 def _timers(variant: str) -> List[str]:
-    return ["tr:a1", "tr:a2"] if variant in ("two", "stay", "compound-stay") else ["tr:a1"]
+    return ["tr:a1", "tr:a2"] if variant in ("two", "stay", "compound-stay", "cand_true", "cand_false") else ["tr:a1"]
 
 
 def _delay(variant: str, name: str, a: Dict[str, Any]) -> float:
@@ -237,7 +291,7 @@ def units(tier: str) -> List[Any]:
 
 
 def harness_for(variant: str, engine: str = "async") -> Harness:
-    gv = {"g_true": True, "g_false": False, "g_raise": "raise"}.get(variant)
+    gv = {"g_true": True, "g_false": False, "g_raise": "raise", "cand_true": True, "cand_false": False}.get(variant)
     if engine == "async":
         acts = {"slow": slow_action, "slowself": slowself_action}
     else:
@@ -264,7 +318,7 @@ def run_one(variant, engine, script, prefix=None):
         d = (run_async if engine == "async" else run_sync)(h, script, ch, horizon=HORIZON)
         try:
             log = list(h.rec.log)
-            bad = judge(variant, engine, script, log, d)
+            bad = judge_twin(engine, script, log, d) if variant == "twin" else judge(variant, engine, script, log, d)
             errs = []
             if engine == "async":
                 errs = [c for c in d.loop.errors if "exception" in c and not isinstance(c["exception"], asyncio.CancelledError)]
